@@ -476,6 +476,11 @@ class StackDomain(EffectDomain):
                 if not v.fields:
                     return [(NONE, store)]
                 return [(some(v.fields[-1]), it.write_ref(store, args[0], Agg("vec", None, None, None, v.fields[:-1])))]
+        if (name.endswith("IntoIterator>::into_iter") or name in ("core::slice::<impl [T]>::iter", "std::vec::Vec::<T, A>::drain")) and vals:
+            v = a if isinstance(a, Agg) and a.kind == "vec" else (it.read_ref(store, a) if isinstance(a, Ref) else None)
+            if isinstance(v, Agg) and v.kind == "vec":
+                from ..absint.stdmodels import it_list
+                return [(it_list(v.fields), store)]
         if name == "std::vec::Vec::<T, A>::is_empty":
             v = it.read_ref(store, args[0])
             if isinstance(v, Agg) and v.kind == "vec":
@@ -511,7 +516,52 @@ def ref_step(stack, p, unit, cur):
     return closes, st
 
 
-def read_stack(it, store, frame, local):
+def stack_layout(facts, ty):
+    """Element layout of the precedence stack `Vec<E>`: E is a tuple or a crate-local struct with one Checkpoint, one i32
+    (the priority) and one bool (the is_unit choice), in any order.  -> (make(cp, p, u), (i_cp, i_pr, i_un)) or None."""
+    if not ty.startswith("std::vec::Vec<"):
+        return None
+    inner = ty[len("std::vec::Vec<"):-1]
+    if inner.endswith(", std::alloc::Global"):
+        inner = inner[:-len(", std::alloc::Global")]
+    if inner.startswith("("):
+        # split the tuple's components at top level
+        parts, depth, cur = [], 0, ""
+        for ch in inner[1:-1]:
+            if ch in "<(":
+                depth += 1
+            elif ch in ">)":
+                depth -= 1
+            if ch == "," and depth == 0:
+                parts.append(cur.strip())
+                cur = ""
+            else:
+                cur += ch
+        if cur.strip():
+            parts.append(cur.strip())
+        mk = lambda fs: Agg("tuple", None, None, None, tuple(fs))
+    else:
+        adt = facts.adt(inner)
+        if adt is None or adt["is_enum"]:
+            return None
+        parts = [f["ty"] for f in adt["variants"][0]["fields"]]
+        name = adt["variants"][0]["name"]
+        mk = lambda fs, inner=inner, name=name: Agg("adt", inner, 0, name, tuple(fs))
+    cps = [i for i, t in enumerate(parts) if "syntree::Checkpoint" in t]
+    prs = [i for i, t in enumerate(parts) if t == "i32"]
+    uns = [i for i, t in enumerate(parts) if t == "bool"]
+    if len(cps) != 1 or len(prs) != 1 or len(uns) != 1 or len(parts) != 3:
+        return None
+    idx = (cps[0], prs[0], uns[0])
+
+    def make(cp, p, u):
+        fs = [None, None, None]
+        fs[idx[0]], fs[idx[1]], fs[idx[2]] = cp, p, u
+        return mk(fs)
+    return make, idx
+
+
+def read_stack(it, store, frame, local, idx=(0, 1, 2)):
     v = it.read_ref(store, Ref(frame, local))
     if not (isinstance(v, Agg) and v.kind == "vec"):
         return None
@@ -519,7 +569,7 @@ def read_stack(it, store, frame, local):
     for e in v.fields:
         if not isinstance(e, Agg):
             return None
-        cp, pr, un = e.field(0), e.field(1), e.field(2)
+        cp, pr, un = e.field(idx[0]), e.field(idx[1]), e.field(idx[2])
         out.append((cp, pr.v if isinstance(pr, Const) else None, bool(un.v) if isinstance(un, Const) else None))
     return out
 
@@ -539,15 +589,19 @@ def r6_stack(facts, rep, pr, tier):
     for tok, (p, kind, unit) in pr.items():
         pr_info.setdefault(p, (kind, unit))
     cfg = body.cfg
-    stack_l = [l["id"] for l in body.locals if l["ty"].startswith("std::vec::Vec<(syntree::Checkpoint")]
-    if not rep.ob("C06-R6", "anchor:stack", len(stack_l) == 1, "operation() has one checkpoint stack (%d Vec<(Checkpoint, ..)> locals)" % len(stack_l)):
-        return
-    stack_local = stack_l[0]
     # loop head: the outermost loop of operation() (the operand / operator loop)
     heads = [h for h in cfg.reach0 if any(cfg.dominates(h, x) for x in cfg.pred[h])]
     if not rep.ob("C06-R6", "anchor:loop", bool(heads), "the operand loop of operation() found"):
         return
     head = min(heads, key=lambda h: len(cfg.dom[h]))
+    # the stack: the Vec of (checkpoint, priority, is_unit) entries that is part of that loop's state
+    from .. import loops as L_
+    var = L_.variant_locals(body, head)
+    stack_l = [l["id"] for l in body.locals if stack_layout(facts, l["ty"]) is not None and l["id"] in var]
+    if not rep.ob("C06-R6", "anchor:stack", len(stack_l) == 1, "operation()'s loop has one stack of (checkpoint, priority, is_unit) entries (%d such Vec locals in its state)" % len(stack_l)):
+        return
+    stack_local = stack_l[0]
+    make_entry, lay = stack_layout(facts, body.local_ty(stack_local))
 
     def run_from(store, script):
         dom = StackDomain(facts, script, pr_info)
@@ -579,7 +633,7 @@ def r6_stack(facts, rep, pr, tier):
     n = 0
     for S in stacks:
         entries = [(Sym("g%d" % i), p, bool(pr_info[p][1])) for i, p in enumerate(S)]
-        vec = Agg("vec", None, None, None, tuple(Agg("tuple", None, None, None, (cp, Const(p), Const(u))) for cp, p, u in entries))
+        vec = Agg("vec", None, None, None, tuple(make_entry(cp, Const(p), Const(u)) for cp, p, u in entries))
         st = dict(tstore)
         st[(frame, stack_local)] = vec
         st[("opi",)] = 0
@@ -595,7 +649,7 @@ def r6_stack(facts, rep, pr, tier):
                 continue
             o = stops[0]
             log = dom.log(o.store)
-            got_stack = read_stack(it, o.store, frame, stack_local)
+            got_stack = read_stack(it, o.store, frame, stack_local, lay)
             closes = [e[1] for e in log if e[0] == "close"]
             operands = [e for e in log if e[0] == "operand"]
             cur = operands[0][1] if operands else None
@@ -654,6 +708,14 @@ def run(fx, rep, tier):
         r4_offset(facts, sub)
         r5_groups(facts, sub)
         r6_stack(facts, sub, pr, tier)
+        if cfg == "dev":
+            # grouping is only worth something if the evaluator folds every operator of a group, left to right
+            from . import c01
+            s8 = type(rep)(rep.prop, rep.tier)
+            c01.r6_fold(facts, s8, "C06-R8")
+            rep.rules["C06-R8"] = s8.rules["C06-R8"] + " (shared with C01-R6)"
+            for o in s8.obls:
+                sub.obls.append(o)
         if sub is not rep:
             for o in sub.obls:
                 o["key"] += "[rel]"
